@@ -7,7 +7,8 @@
    tokenizer-produced lists.  The depth counter is restored by `defer` on every path, so it is a parameter, not state.
 
    Branches of the Go code that are not modelled return [Unmodelled] (sub-queries, EXISTS, ANY/ALL, ARRAY,
-   subscripts, MATCH..AGAINST, ORDER BY / WITHIN GROUP / FILTER / OVER inside a call): the correspondence
+   subscripts, MATCH..AGAINST, ORDER BY / WITHIN GROUP / FILTER inside a call; OVER ( window specification ) is modelled -
+   parseWindowSpec / parseWindowFrame / parseFrameBound of window.go - but is outside the reference expressions of the theorems): the correspondence
    skips and counts them; they are covered by the prescribed-tree oracle (tie b).
 
    Defect switches (DEVGUIDE section 4): [d_cmp_rhs_primary], [d_like_primary] reproduce the two defects of
@@ -53,6 +54,23 @@ Definition is_numeric_literal (t : token) : bool := isT t TyNumber.
 Definition is_boolean_literal (t : token) : bool := isT t TyTrue || isT t TyFalse.
 Definition is_quantifier (t : token) : bool := isT t TyAny || isT t TyAll.
 Definition is_json_operator (t : token) : bool := isT t TyJsonOp.
+
+(* window specification keywords (models.TokenType values; ROWS = 302, ROW = 308 are written as numbers here) *)
+Definition TyPartition := TyOther 301.
+Definition TyRange := TyOther 303.
+Definition TyUnbounded := TyOther 304.
+Definition TyPreceding := TyOther 305.
+Definition TyFollowing := TyOther 306.
+Definition TyCurrent := TyOther 307.
+
+(* parseNullsClause *)
+Definition parse_nulls (ts : list token) : outcome (option bool * list token) :=
+  if isT (cur ts) TyNulls then
+    let ts := advance ts in
+    if isT (cur ts) TyFirst then Val (Some true, advance ts)
+    else if isT (cur ts) TyLast then Val (Some false, advance ts)
+    else Err EExpected
+  else Val (None, ts).
 
 (* ast.IsNiladicFunctionName *)
 Definition niladic_names : list string := ["CURRENT_DATE"; "CURRENT_TIME"; "CURRENT_TIMESTAMP"; "LOCALTIME"; "LOCALTIMESTAMP"].
@@ -170,6 +188,69 @@ Section Ladder.
           else Err EExpected
     end.
 
+  (* ---- OVER ( [PARTITION BY e, ...] [ORDER BY e [ASC|DESC] [NULLS FIRST|LAST], ...] [ROWS|RANGE frame] ) ---- *)
+  (* `for { e := parseExpression; append; if comma { advance } else break }` *)
+  Fixpoint win_exprs (n : nat) (d : nat) (acc : list gexpr) (ts : list token) : outcome (list gexpr * list token) :=
+    match n with
+    | 0 => OutOfFuel
+    | S n' =>
+        do (e, ts1) <- rec_expr d ts;
+        if isT (cur ts1) TyComma then win_exprs n' d (acc ++ [e]) (advance ts1) else Val (acc ++ [e], ts1)
+    end.
+  Fixpoint win_orders (n : nat) (d : nat) (acc : list gorder) (ts : list token) : outcome (list gorder * list token) :=
+    match n with
+    | 0 => OutOfFuel
+    | S n' =>
+        do (e, ts1) <- rec_expr d ts;
+        let '(asc, ts2) := if isT (cur ts1) TyAsc then (true, advance ts1)
+                           else if isT (cur ts1) TyDesc then (false, advance ts1) else (true, ts1) in
+        do (nf, ts3) <- parse_nulls ts2;
+        let acc := acc ++ [GOrder e asc nf] in
+        if isT (cur ts3) TyComma then win_orders n' d acc (advance ts3) else Val (acc, ts3)
+    end.
+  (* parseFrameBound *)
+  Definition parse_frame_bound (d : nat) (ts : list token) : outcome (gbound * list token) :=
+    if isT (cur ts) TyUnbounded then
+      let ts := advance ts in
+      if isT (cur ts) TyPreceding then Val (GBound "UNBOUNDED PRECEDING" None, advance ts)
+      else if isT (cur ts) TyFollowing then Val (GBound "UNBOUNDED FOLLOWING" None, advance ts)
+      else Err EExpected
+    else if isT (cur ts) TyCurrent then
+      let ts := advance ts in
+      if negb (isT (cur ts) (TyOther 308)) then Err EExpected else Val (GBound "CURRENT ROW" None, advance ts)
+    else
+      do (e, ts1) <- rec_expr d ts;
+      if isT (cur ts1) TyPreceding then Val (GBound "PRECEDING" (Some e), advance ts1)
+      else if isT (cur ts1) TyFollowing then Val (GBound "FOLLOWING" (Some e), advance ts1)
+      else Err EExpected.
+  (* parseWindowFrame: the short form (a single bound) leaves End nil *)
+  Definition parse_window_frame (d : nat) (fty : string) (ts : list token) : outcome (gframe * list token) :=
+    if isT (cur ts) TyBetween then
+      do (st, ts1) <- parse_frame_bound d (advance ts);
+      if negb (isT (cur ts1) TyAnd) then Err EExpected
+      else do (en, ts2) <- parse_frame_bound d (advance ts1); Val (GFrame fty st (Some en), ts2)
+    else do (st, ts1) <- parse_frame_bound d ts; Val (GFrame fty st None, ts1).
+  (* parseWindowSpec: cursor after OVER *)
+  Definition parse_window_spec (d : nat) (ts : list token) : outcome (gwindow * list token) :=
+    if negb (isT (cur ts) TyLParen) then Err EExpected
+    else
+      let ts := advance ts in
+      do (part, ts) <-
+        (if isT (cur ts) TyPartition then
+           let ts := advance ts in
+           if negb (isT (cur ts) TyBy) then Err EExpected else let ts := advance ts in win_exprs (S (length ts)) d [] ts
+         else Val ([], ts));
+      do (ord, ts) <-
+        (if isT (cur ts) TyOrder then
+           let ts := advance ts in
+           if negb (isT (cur ts) TyBy) then Err EExpected else let ts := advance ts in win_orders (S (length ts)) d [] ts
+         else Val ([], ts));
+      do (fr, ts) <-
+        (if isT (cur ts) (TyOther 302) || isT (cur ts) TyRange then
+           do (f, ts1) <- parse_window_frame d (upper (lit (cur ts))) (advance ts); Val (Some f, ts1)
+         else Val (None, ts));
+      if negb (isT (cur ts) TyRParen) then Err EExpected else Val (GWindow "" part ord fr, advance ts).
+
   (* parseFunctionCall(funcName): cursor at the opening parenthesis *)
   Definition parse_function_call (d : nat) (name : string) (ts : list token) : res :=
     if negb (isT (cur ts) TyLParen) then Err EExpected
@@ -186,7 +267,9 @@ Section Ladder.
         if negb (isT (cur ts) TyRParen) then Err EExpected
         else
           let ts := advance ts in
-          if isT (cur ts) TyWithin || isT (cur ts) TyFilter || isT (cur ts) TyOver then Unmodelled
+          if isT (cur ts) TyWithin || isT (cur ts) TyFilter then Unmodelled
+          else if isT (cur ts) TyOver then
+            do (w, ts1) <- parse_window_spec d (advance ts); Val (GFunc name args distinct None [] [] (Some w), ts1)
           else Val (GFunc name args distinct None [] [] None, ts).
 
   (* WHEN clauses: for isType(WHEN) { advance; cond; THEN; result } *)
